@@ -40,11 +40,6 @@ Theorem C18_qname_text_refuted :
 Proof. exists W_wit, wit_qname. exact qname_refuted. Qed.
 Print Assumptions C18_qname_text_refuted.
 
-Theorem C18_duration_text_refuted :
-  exists W o, wf W o = true /\ only_raw W o = true /\ roundtrip W o = false.
-Proof. exists W_wit, wit_duration. exact duration_refuted. Qed.
-Print Assumptions C18_duration_text_refuted.
-
 Theorem C18_init_false_refuted :
   exists W o, wf W o = true /\ only_init W o = true /\ roundtrip W o = false.
 Proof. exists W_wit, wit_init. exact init_false_refuted. Qed.
